@@ -116,6 +116,11 @@ def inputs(ctx, h, which, selfcheck=True):
         p = ctx.path(tag + ".ndjson")
         core.write_ndjson(p, recs)
         out.append((tag, p))
+    if "bytes" in which:
+        # byte strings for the slice entry point: damaged encodings (truncated sequences, overlongs, surrogates, > U+10FFFF)
+        bp = ctx.path("bytes.ndjson")
+        ctx.harness(h, ["gen-damaged", "--in", corpus, "--out", bp])
+        out.append(("bytes", bp))
     if "dates" in which:
         # the date-time edge family of MCDateGen as document values (every month x day edge, field edges)
         from . import apicheck, c12
